@@ -65,7 +65,7 @@ def c_calls(run):
     return calls
 
 
-def am_calls(machine, chunks, call_end=False, indirect=True, cfg0=None):
+def am_calls(machine, chunks, call_end=False, indirect=True, cfg0=None, end_after=None):
     """Run the abstract machine on the same call schedule the driver uses; returns list of Call.
     Exceptions from AM (Undefined, Spin, Broken) propagate.  cfg0: start from this configuration
     instead of calling start()."""
@@ -78,9 +78,16 @@ def am_calls(machine, chunks, call_end=False, indirect=True, cfg0=None):
     base = 0
     nyield = 3 + len(machine.finish_codes)
     dead = bool(calls) and calls[-1].code != 0
-    for ch in chunks:
+    for k, ch in enumerate(chunks):
         if dead:
             break
+        if end_after is not None and k == end_after:
+            # an end() call in the middle of the input (the caller goes on afterwards): once FAIL, always FAIL
+            res = machine.end(cfg)
+            calls.append(_am_call("end", res, None, machine, cfg))
+            if res.code == 2 or 3 <= res.code < nyield:
+                dead = True
+                break
         pos = 0
         guard = 0
         while True:
@@ -106,9 +113,11 @@ def _am_call(kind, res, off, machine, cfg):
     return Call(kind, res.code, off, hooks, norm_am_vars(cfg.frozen_vars()), machine.idx(cfg.state), events=res.events)
 
 
-def script_for(chunks, call_end=False, call_free=False, move=True):
+def script_for(chunks, call_end=False, call_free=False, move=True, end_after=None):
     sc = crun.Script().start(move=move, snap=True)
-    for ch in chunks:
+    for k, ch in enumerate(chunks):
+        if end_after is not None and k == end_after:
+            sc.end()
         sc.feed(ch)
     if call_end:
         sc.end()
